@@ -28,6 +28,8 @@ import (
 
 var vdErrSys = errors.New("vd: injected syscall failure")
 
+const vdNameMax = 255 // NAME_MAX
+
 type vdOpenFile struct {
 	path     string
 	closed   bool
@@ -118,6 +120,10 @@ func verifOSCreateTemp(dir, pattern string) (*os.File, error) {
 			break
 		}
 	}
+	if len(prefix)+len(suffix)+9 > vdNameMax {
+		// the kernel refuses a file name longer than NAME_MAX (os.CreateTemp appends up to 10 random digits)
+		return nil, &fs.PathError{Op: "open", Path: dir + "/" + prefix + "N" + suffix, Err: errors.New("file name too long")}
+	}
 	f.tmpN++
 	name := dir + "/" + prefix + []string{"0", "1", "2", "3"}[f.tmpN] + suffix
 	verifAssert(name != f.watch, "the temp file is never the final path")
@@ -133,6 +139,9 @@ func verifOSCreate(name string) (*os.File, error) {
 	}
 	if !f.dirs[vdDirOf(name)] {
 		return nil, &fs.PathError{Op: "open", Path: name, Err: fs.ErrNotExist}
+	}
+	if len(vdBaseOf(name)) > vdNameMax {
+		return nil, &fs.PathError{Op: "open", Path: name, Err: errors.New("file name too long")}
 	}
 	f.files[name] = []byte{} // created or truncated
 	return f.newFile(name), nil
@@ -398,13 +407,24 @@ func VerifLemma_C15C_AtomicPut() {
 type vdWorld struct {
 	root  string
 	final string
+	base  string // base name of the object
 }
 
-func vdNewWorld(subdirExists bool, oldPresent bool, oldData []byte, destIsDir bool) *vdWorld {
-	w := &vdWorld{}
+// vdLongName: 250 bytes - the object's own name fits NAME_MAX, the atomic writer's temp name (".tmp"+name+random) does not,
+// so os.CreateTemp fails with ENAMETOOLONG on a real file system as well.
+func vdLongName() string {
+	b := make([]byte, 250)
+	for i := range b {
+		b[i] = 'n'
+	}
+	return string(b)
+}
+
+func vdNewWorld(subdirExists bool, oldPresent bool, oldData []byte, destIsDir bool, base string) *vdWorld {
+	w := &vdWorld{base: base}
 	if verifInEngine() {
 		w.root = "/cache"
-		w.final = w.root + "/sub/obj.bin"
+		w.final = w.root + "/sub/" + base
 		f := &vdFS{files: map[string][]byte{}, dirs: map[string]bool{"/": true, w.root: true}, open: map[*os.File]*vdOpenFile{}, watch: w.final}
 		vdFSState = f
 		if subdirExists {
@@ -424,7 +444,7 @@ func vdNewWorld(subdirExists bool, oldPresent bool, oldData []byte, destIsDir bo
 		panic(err)
 	}
 	w.root = root
-	w.final = root + "/sub/obj.bin"
+	w.final = root + "/sub/" + base
 	if subdirExists {
 		if err := os.Mkdir(root+"/sub", 0755); err != nil {
 			panic(err)
@@ -477,7 +497,7 @@ func (w *vdWorld) tempLeft() int {
 	}
 	n := 0
 	for _, e := range entries {
-		if e.Name() != "obj.bin" {
+		if e.Name() != w.base {
 			n++
 		}
 	}
@@ -531,7 +551,12 @@ func VerifLemma_C15C_AtomicPutRealFaults() {
 	breakBefore := verifNondetChoice(3) // 0: never, 1: before the first write, 2: before the second write
 	loseTemp := verifNondetBool()
 	viaCopy := verifNondetBool()
-	world := vdNewWorld(subdirExists, oldPresent, oldData, destIsDir)
+	base := "obj.bin"
+	longName := verifNondetBool()
+	if longName {
+		base = vdLongName()
+	}
+	world := vdNewWorld(subdirExists, oldPresent, oldData, destIsDir, base)
 	defer world.cleanup()
 	if verifInEngine() {
 		vdFSState.newData = newData
@@ -539,10 +564,24 @@ func VerifLemma_C15C_AtomicPutRealFaults() {
 			vdFSState.watch = world.final + "/<none>" // the final path is a directory: nothing to watch
 		}
 	}
+	// all-or-nothing at every step, observed from outside (works natively too): the final path holds what it held
+	// before (old content / absent / the directory) or the complete new content
+	step := func() {
+		cur, present := world.readFinal()
+		if present == oldPresent && (!present || bytes.Equal(cur, oldData)) {
+			return
+		}
+		verifAssert(present && bytes.Equal(cur, newData), "at every step the final path holds the previous state or the complete new content")
+	}
 	b := &bucket{rootPath: world.root, absoluteRootPath: world.root}
-	w, err := b.Put(context.Background(), "sub/obj.bin", storage.PutWithAtomic())
-	verifAssert(err == nil, "Put on a healthy file system succeeds")
+	w, err := b.Put(context.Background(), "sub/"+base, storage.PutWithAtomic())
+	step()
 	if err != nil {
+		verifCover("atomic put refused")
+		verifAssert(longName, "Put succeeds unless the temp file cannot be created")
+		cur, present := world.readFinal()
+		verifAssert(present == oldPresent && (!present || bytes.Equal(cur, oldData)), "a refused atomic put leaves the destination untouched")
+		verifAssert(world.tempLeft() == 0, "a refused atomic put leaves no temp file")
 		return
 	}
 	woc, ok := w.(*writeObjectCloser)
@@ -554,10 +593,12 @@ func VerifLemma_C15C_AtomicPutRealFaults() {
 		world.breakHandle(woc)
 	}
 	werr1 := vdWriteTo(w, data1, viaCopy)
+	step()
 	if breakBefore == 2 {
 		world.breakHandle(woc)
 	}
 	werr2 := vdWriteTo(w, data2, viaCopy)
+	step()
 	mustFail := (breakBefore == 1 && len(data1) > 0) || (breakBefore != 0 && len(data2) > 0)
 	writeFailed := werr1 != nil || werr2 != nil
 	verifAssert(!mustFail || writeFailed, "a failing write is reported by Write / io.Copy")
